@@ -44,7 +44,7 @@ func pendingUnbondings(st *State, k int) {
 		return
 	}
 	c1 := nd.TimeRange("c1", TLo, THi)
-	q1 := nd.IntRange("q1", "1", Pow30)
+	q1 := nd.IntRange("q1", "0", Pow30) // 0: an entry slashed to nothing (fraction 1) stays in its bucket
 	switch k {
 	case 1:
 		InstallUnbonding(st.E, 0, c1, []Entry{{0, 0, q1}})
@@ -94,9 +94,13 @@ func c01Step(id string, op Op, ps []Pos, o Opts, pending bool) {
 
 // C01: custody surplus (custody - staked total - queued unbondings) is unchanged by every
 // successful operation from any RI state (one inductive step per operation).
-func H_C01_step_delegate()   { c01Step("C01.step.delegate", OpDelegate, shape3("shape"), Opts{}, false) }
-func H_C01_step_undelegate() { c01Step("C01.step.undelegate", OpUndelegate, shapeActor("shape"), Opts{}, true) }
-func H_C01_step_redelegate() { c01Step("C01.step.redelegate", OpRedelegate, shapeActor("shape"), Opts{}, false) }
+func H_C01_step_delegate() { c01Step("C01.step.delegate", OpDelegate, shape3("shape"), Opts{}, false) }
+func H_C01_step_undelegate() {
+	c01Step("C01.step.undelegate", OpUndelegate, shapeActor("shape"), Opts{}, true)
+}
+func H_C01_step_redelegate() {
+	c01Step("C01.step.redelegate", OpRedelegate, shapeActor("shape"), Opts{}, false)
+}
 func H_C01_step_claim() {
 	c01Step("C01.step.claim", OpClaim, shapeActor("shape"), Opts{Rewards: true}, false)
 }
